@@ -3,6 +3,7 @@
 pub mod ctx;
 pub mod rng;
 pub mod gen;
+pub mod mon;
 pub mod props;
 
 use ctx::{Ctx, Tier};
